@@ -5,6 +5,7 @@
 
      Begin(m) | FBegin(wipe)        the call (tag.ndef.octets = m / tag.format(wipe=..))
      W(fid, off, data, ok)          every UPDATE BINARY command APDU that reached the tag
+     Drop | Ok                      transient outage: a frame did not reach the tag | frames get through again
      Cut                            the tag stopped answering
      Ret(res, cap)                  how the call ended, the capacity nfcpy reported before it
      View(k, v, reads, ndef, oth)   fresh reader's result, its READ BINARY commands on the NDEF
@@ -18,7 +19,7 @@
 EXTENDS T4Tag, Json, IOUtils, TLCExt
 
 VARIABLES tid, l
-tvars == <<tag, tag0, pc, op, msg, pay, off, ncmd, last, seen, tid, l>>
+tvars == <<tag, tag0, pc, op, msg, pay, off, ncmd, nd, last, seen, tid, l>>
 
 Traces == ndJsonDeserialize(IOEnv.TRACE_FILE)
 T == Traces[tid].ev
@@ -31,7 +32,7 @@ TInit ==
               ndef |-> I0.ndef, oth |-> I0.oth]
     /\ tag0 = tag
     /\ pc = "idle" /\ op = "none" /\ msg = <<>> /\ pay = <<>> /\ off = 0 /\ ncmd = 0 /\ last = NoCmd
-    /\ seen = Unseen
+    /\ seen = Unseen /\ nd = 0
 
 Ev == T[l]
 IsEv(a) == l <= Len(T) /\ Ev.a = a /\ l' = l + 1 /\ UNCHANGED tid
@@ -44,7 +45,7 @@ EvView == [k |-> Ev.k, v |-> Ev.v]
 ExpRes(p) == CASE p = "done" -> "ok"
                [] p = "rejected" -> "rejected"
                [] p = "refused" -> "refused"
-               [] p \in {"cut", "error"} -> "tagerr"
+               [] p \in {"cut", "error", "failed"} -> "tagerr"
                [] p = "error_value" -> "raised:ValueError"
                [] p = "fdone" -> "true"
                [] p = "ffalse" -> "false"
@@ -52,12 +53,20 @@ ExpRes(p) == CASE p = "done" -> "ok"
 
 GBegin  == IsEv("Begin") /\ Begin(Ev.m)
 GFBegin == IsEv("FBegin") /\ FBegin(Ev.wipe)
-GW      == IsEv("W") /\ pc \in {"u_data", "u_nlen", "z_nlen", "z_wipe"} /\ Step(EvStep)
+\* a command that reaches the tag although the modelled writer has given up: applied, judged, never conforms
+Stray ==
+    /\ pc = "failed"
+    /\ ncmd' = ncmd + 1 /\ last' = EvCmd
+    /\ tag' = IF TagOk(tag, EvCmd) THEN TagApply(tag, EvCmd) ELSE tag
+    /\ UNCHANGED <<tag0, pc, op, msg, pay, off, nd, seen>>
+GW      == IsEv("W") /\ ((pc \in {"u_data", "u_nlen", "z_nlen", "z_wipe"} /\ Step(EvStep)) \/ Stray)
+GDrop   == IsEv("Drop") /\ Drop
+GOk     == IsEv("Ok") /\ Recover
 GCut    == IsEv("Cut") /\ PowerCut
 GRet    == IsEv("Ret") /\ ((pc \in Terminal /\ UNCHANGED vars) \/ Finish \/ Raise)
 GView   == /\ IsEv("View") /\ pc \in Terminal \cup {"idle"} /\ seen = Unseen /\ seen' = EvView
-           /\ UNCHANGED <<tag, tag0, pc, op, msg, pay, off, ncmd, last>>
-Guarded == GBegin \/ GFBegin \/ GW \/ GCut \/ GRet \/ GView
+           /\ UNCHANGED <<tag, tag0, pc, op, msg, pay, off, ncmd, nd, last>>
+Guarded == GDrop \/ GOk \/ GBegin \/ GFBegin \/ GW \/ GCut \/ GRet \/ GView
 
 Conform ==
     CASE Ev.a = "W" -> Match # {} /\ Ev.ok = TagOk(tag, EvCmd)
